@@ -118,6 +118,7 @@ CHECKS["C15"] = {
         {"engine": "P", "pkg": "internal/limiter", "tests": [
             {"run": "TestVfC15Limiter", "quick": 30000, "thorough": 2000000, "shards_quick": 6, "shards_thorough": 16, "timeout_thorough": 3000},
             {"run": "TestVfC15Concurrent", "quick": 400, "thorough": 20000, "shards_quick": 2, "shards_thorough": 8},
+            {"run": "TestVfC15Gc", "quick": 1600, "thorough": 80000, "shards_quick": 8, "shards_thorough": 16},
             {"run": "TestVfC15GcKeepsLive", "quick": 0, "thorough": 2, "shards_thorough": 2},
         ]},
         {"engine": "E", "proxy": ["plain"], "tests": [
@@ -267,6 +268,7 @@ CHECKS["C03"] = {
     "parts": [
         {"engine": "E", "proxy": ["plain"], "tests": [
             {"run": "TestVfC03", "quick": 40, "thorough": 1200, "shards_quick": 8, "shards_thorough": 16, "timeout_quick": 600, "timeout_thorough": 3400, "shrinktime": "40s"},
+            {"run": "TestVfC03Pipelined", "quick": 160, "thorough": 6000, "shards_quick": 8, "shards_thorough": 16, "timeout_thorough": 3400},
         ]},
     ],
     "assumptions": ["well-formed fake replies carry the lower-cased question they were asked, as real servers do", "clients keep their transport open until the response or 9 s"],
